@@ -605,48 +605,63 @@ def partialLine (cfg : Cfg) (st : St) (data : Bytes) (evs : List Ev) : FeedOut :
     { st := { st with tail := data, failed := true }, evs, rest := [], err := some .lineTooLong }
   else { st := { st with tail := data }, evs, rest := [], err := none }
 
-/-- the `while` loop of `feed_data` over `data` (already `tail + data`).  `fuel` bounds the
-iterations: each one consumes at least one byte or stops. -/
+/-- result of one iteration of the `while` loop of `feed_data` -/
+inductive Step where
+  /-- something was consumed: go round the loop again with the rest of the buffer -/
+  | cont (st : St) (data : Bytes) (evs : List Ev)
+  /-- `feed_data` returns (`evs` are the events of this iteration only) -/
+  | stop (o : FeedOut)
+
+/-- one iteration of the `while` loop on a non-empty buffer `data` -/
+def stepOnce (cfg : Cfg) (urlOk : Bool → Bytes → Bool) (st : St) (data : Bytes) : Step :=
+  match st.payload with
+  | none =>
+    if st.upgraded then .stop { st, evs := [], rest := data, err := none } else
+    match findSep cfg.lax data with
+    | some pos =>
+      if pos == 0 && st.lines.isEmpty then .cont st (data.drop (sepLen cfg.lax)) []
+      else if st.shouldClose then
+        .stop { st := { st with failed := true }, evs := [], rest := [], err := some .badHttpMessage }
+      else
+        match acceptLine cfg st (data.take pos) with
+        | .error e => .stop { st := { st with failed := true }, evs := [], rest := [], err := some e }
+        | .ok lines =>
+          let data := data.drop (pos + sepLen cfg.lax)
+          if (lines.getLast?.getD []).isEmpty then
+            match onHeaderBlock cfg urlOk st lines with
+            | .error e => .stop { st := { st with lines := [], failed := true }, evs := [], rest := [], err := some e }
+            | .ok (st', evs', sc) => .cont { st' with shouldClose := sc } data evs'
+          else .cont { st with lines } data []
+    | none => .stop (partialLine cfg st data [])
+  | some p =>
+    let (r, pevs) := payloadFeed cfg p data
+    match r with
+    | .needs p' => .stop { st := { st with payload := some p' }, evs := pevs, rest := [], err := none }
+    | .complete rest =>
+      let st := { st with payload := none }
+      let st := if st.pendingUpgrade then { st with upgraded := true, pendingUpgrade := false } else st
+      .cont st rest pevs
+    | .err e reraise =>
+      if reraise then
+        .stop { st := { st with failed := true }, evs := pevs ++ [.payloadErr e], rest := [], err := some e }
+      else
+        -- swallowed: exception set on the payload, parser dropped, rest of this read discarded
+        let st := { st with payload := none }
+        let st := if st.pendingUpgrade then { st with upgraded := true, pendingUpgrade := false } else st
+        .stop { st, evs := pevs ++ [.payloadErr e], rest := [], err := none }
+
+/-- the `while` loop of `feed_data` over `data` (already `tail + data`).  Every iteration that
+continues has consumed at least one byte (guarded), so `fuel = |data| + 1` suffices. -/
 def feedLoop (cfg : Cfg) (urlOk : Bool → Bytes → Bool) :
     Nat → St → Bytes → List Ev → FeedOut
   | 0, st, data, evs => { st := { st with tail := data }, evs, rest := [], err := none }
   | fuel + 1, st, data, evs =>
     if data.isEmpty then { st, evs, rest := [], err := none } else
-    match st.payload with
-    | none =>
-      if st.upgraded then { st, evs, rest := data, err := none } else
-      match findSep cfg.lax data with
-      | some pos =>
-        if pos == 0 && st.lines.isEmpty then
-          feedLoop cfg urlOk fuel st (data.drop (sepLen cfg.lax)) evs
-        else if st.shouldClose then { st := { st with failed := true }, evs, rest := [], err := some .badHttpMessage }
-        else
-          match acceptLine cfg st (data.take pos) with
-          | .error e => { st := { st with failed := true }, evs, rest := [], err := some e }
-          | .ok lines =>
-            let data := data.drop (pos + sepLen cfg.lax)
-            if (lines.getLast?.getD []).isEmpty then
-              match onHeaderBlock cfg urlOk st lines with
-              | .error e => { st := { st with lines := [], failed := true }, evs, rest := [], err := some e }
-              | .ok (st', evs', sc) => feedLoop cfg urlOk fuel { st' with shouldClose := sc } data (evs ++ evs')
-            else feedLoop cfg urlOk fuel { st with lines } data evs
-      | none => partialLine cfg st data evs
-    | some p =>
-      let (r, pevs) := payloadFeed cfg p data
-      let evs := evs ++ pevs
-      match r with
-      | .needs p' => { st := { st with payload := some p' }, evs, rest := [], err := none }
-      | .complete rest =>
-        let st := { st with payload := none }
-        let st := if st.pendingUpgrade then { st with upgraded := true, pendingUpgrade := false } else st
-        feedLoop cfg urlOk fuel st rest evs
-      | .err e reraise =>
-        if reraise then { st := { st with failed := true }, evs := evs ++ [.payloadErr e], rest := [], err := some e }
-        else
-          -- swallowed: exception set on the payload, parser dropped, rest of this read discarded
-          let st := { st with payload := none }
-          let st := if st.pendingUpgrade then { st with upgraded := true, pendingUpgrade := false } else st
-          { st, evs := evs ++ [.payloadErr e], rest := [], err := none }
+    match stepOnce cfg urlOk st data with
+    | .stop o => { o with evs := evs ++ o.evs }
+    | .cont st' data' evs' =>
+      if data'.length < data.length then feedLoop cfg urlOk fuel st' data' (evs ++ evs')
+      else { st := { st' with tail := data' }, evs := evs ++ evs', rest := [], err := none }
 
 /-- `HttpParser.feed_data(data)` -/
 def feed (cfg : Cfg) (urlOk : Bool → Bytes → Bool) (st : St) (data : Bytes) : FeedOut :=
